@@ -374,6 +374,15 @@ theorem hs_error (rest : List Outcome) :
 theorem hs_panic (rest : List Outcome) :
     handleStream (.panic :: rest) = [.reset, .receiveError, .close] := rfl
 
+/-- "nor stops serving other streams", as far as the decode path is concerned: the one MessageHandler
+that decodes the frames of all streams of a node has no fields (no lock, no buffer, no reader shared
+between streams), and FromNet / FromMsgReader / fromIPLD touch no package-level variable, no sync
+primitive and start no goroutine (the translator exits non-zero otherwise). In the model this is the
+fact that what a stream delivers is a function of that stream's bytes alone (`bytes_to_events`).
+Whether a stalled stream delays another one at run time is checked on the real code by the `stall`
+cases of the netstream stream (oracle class other-stream-blocked). -/
+theorem no_shared_decode_state : GS.Generated.StreamLoop.handlerStateFields = [] := rfl
+
 /-- the end-of-stream test of the loop is the identity comparison with io.EOF (the translator accepts
 nothing else): only the decoder's bare `eof` outcome ends a stream silently -/
 theorem eof_test_is_identity : GS.Generated.StreamLoop.eofTestIsIdentity = true := rfl
